@@ -42,8 +42,8 @@ def _strip_mv(e: ast.AST) -> ast.AST:
 def run(ch: Checker) -> None:
     prog = ch.prog
     ce = ConstEval(prog)
-    ch.rule('C01.13', 'who may replace the response parser: HttpProxyPlugin.response is assigned in __init__ only -- read_from_descriptors chooses between it and the follow-up parser at receive '
-                      'time, so swapping it at any other moment (e.g. when output is flushed) feeds the middle of a response to a fresh parser, which raises and tears the relay down', 1)
+    ch.rule('C01.15', 'the relay does not depend on the bookkeeping parse: in read_from_descriptors, once a response segment is handed to the response parser(s), self.client.queue(raw) is attempted '
+                      'on every way on, also when parsing raises (a close-delimited body, a tunnel payload or anything else that is not a well-formed response must still reach the client)', 1)
     ch.rule('C01.1', 'TcpConnection.queue: the only effect on self.buffer is append(<parameter>) and _num_buffer is incremented by 1 on the same path', 1)
     ch.rule('C01.2', 'TcpConnection.flush: send() receives the head element or a prefix slice of it; after a completed send exactly one of pop(0) [under sent == len(head), '
                      'with _num_buffer -= 1] or buffer[0] = head[sent:] [otherwise] happens; the would-block path changes nothing and returns 0', 2)
@@ -394,13 +394,21 @@ def run(ch: Checker) -> None:
     ch.check(bool(ok7), 'C01.7', None, 'PROXY_TUNNEL_ESTABLISHED_RESPONSE_PKT', '200 Connection established, no body, no Content-Length',
              'the tunnel acknowledgement is not a bare `200 Connection established` (%s): extra bytes would be injected ahead of tunnel data' % (info,), module_rel='proxy/http/responses.py')
 
-    # ---------------- C01.13 who may assign self.response
-    hp13 = prog.class_named('HttpProxyPlugin')
-    writers13 = sorted({fn.name for fn in list(hp13.methods.values()) + list(hp13.inlined_methods.values()) for chn, kind, node in attr_effects(getattr(fn, 'orig_node', fn.node))
-                        if chn == 'self.response' and kind == 'store'})
-    ch.check(writers13 == ['__init__'], 'C01.13', hp13.methods['__init__'], 'who may assign self.response', 'assigned in __init__ only',
-             'self.response is (re)assigned in %s: the relay decides per received segment which parser sees it by asking `self.response.is_complete`; replacing the parser between two segments '
-             'of one response makes the new parser read body bytes as a status line (IndexError), the segment is never queued and the connection is torn down' % writers13)
+    # ---------------- C01.15 relay even if parsing raises
+    from .common import must_attempt
+    rfd = prog.own_method('HttpProxyPlugin', 'read_from_descriptors')
+    g15 = cfg_of(rfd, prog, unguarded_exc=True)
+    PARSERS = ('parse', 'handle_pipeline_response', 'emit_response_events')
+
+    def _parses(a: ast.AST) -> bool:
+        return any(isinstance(c, ast.Call) and isinstance(c.func, ast.Attribute) and c.func.attr in PARSERS for c in walk_no_nested(a))
+    n15, cex15 = must_attempt(g15, lambda a: any(isinstance(c, ast.Call) and attr_chain(c.func) == 'self.client.queue' for c in walk_no_nested(a)),
+                              lambda p: any(nd.ast is not None and nd.kind == 'stmt' and _parses(nd.ast) for i, nd, lab in p.executed()),
+                              exc_source=_parses)
+    ch.check(cex15 is None and n15 > 0, 'C01.15', rfd, 'relay even if parsing raises', 'client.queue(raw) attempted on all %d path(s) that parse a response segment' % n15,
+             'a response segment is handed to the response parser and, when that raises, never queued for the client (%s): the close-delimited body of a response whose header block arrived '
+             'in a segment of its own is parsed as a new response, raises IndexError and is lost together with the connection' % (cex15[0] if cex15 else 'no parsing path'),
+             witness=cex15[1] if cex15 else None)
 
     # ---------------- C01.12 keep reading while data arrives
     rfd = prog.own_method('HttpProxyPlugin', 'read_from_descriptors')
